@@ -314,7 +314,7 @@ pub fn run(ctx: &Ctx, rep: &mut Report) {
         },
     );
     let nstat = reg::statuses().len() as u8;
-    let n = ctx.cases(40_000, 800_000);
+    let n = ctx.cases(100_000, 1_500_000);
     run_prop(
         ctx,
         rep,
